@@ -619,6 +619,17 @@ class RamseyWitness(SHarness):
                 for s in range(0, top + 1):
                     for sb in (True, False):
                         yield dict(g, k=k, s=s, symbreak=sb)
+        # the two structures of different size: the larger one must be checked on ALL its elements (k, s up to 5 on
+        # graphs with 4 and 5 vertices; every 7th graph of G(5))
+        for i, g in enumerate(gen.graph_box(5, 4)):
+            if g['n'] == 5 and i % 7:
+                continue
+            for (k, s) in ((3, 4), (4, 3), (2, 4), (4, 2), (3, 5), (5, 3), (4, 5), (5, 4)):
+                if tier == 'quick' and top >= 4:
+                    continue
+                if max(k, s) > g['n'] + 1 or (top >= max(k, s)):
+                    continue
+                yield dict(g, k=k, s=s, symbreak=bool(i % 2))
 
     def build(self, p):
         from cnfgen.families.subgraph import RamseyWitnessFormula
@@ -680,7 +691,7 @@ def run(tier):
     t = _top(tier)
     run.bounds = ['all labelled simple graphs on <=%d vertices (G(5) thinned as stated in points())' % t,
                   'tseitin: every charge vector of length n-1,n,n+1, the empty vector and None',
-                  'kcolor k<=%d; domset d<=3 (both encodings); clique k<=4 (incl. k>|V|); ramlb k,s<=%d incl. k!=s' % (3 if tier == 'quick' else 4, 3 if tier == 'quick' else 4),
+                  'kcolor k<=%d; domset d<=3 (both encodings); clique k<=4 (incl. k>|V|); ramlb k,s<=%d incl. k!=s, plus (k,s) in {(3,4),(4,3),(2,4),(4,2),(3,5),(5,3),(4,5),(5,4)} on G(4) and every 7th graph of G(5)' % (3 if tier == 'quick' else 4, 3 if tier == 'quick' else 4),
                   'iso: all pairs of graphs on <=3 vertices incl. order mismatch + a sample of G(4)^2 (quick) / all pairs on <=4 with |E| differing by <=1 (thorough)',
                   'subgraph: G on <=4 vertices, H on <=%d, induced x symbreak' % (3 if tier == 'quick' else 4)]
     run.bounds += ["every fifth graph point is repeated with the graph given as a networkx object (reversed node/edge order, int and str 'bipartite' attributes), as a graph grown by update_vertex_number (by 2, by 3, from empty) and as a graph object with a past (refused insertions, refused bulk insertion, earlier use with one edge elsewhere)", 'size-threshold points of vlib/bigpoints.py (parameters around 10/11, 16/17, 32/33; satisfiable instances; equivalence only, 15 s solver budget, undecided ones counted as big_inconclusive)', 'one third of the points is built a second time, one third again after three calls with other arguments: all builds must agree']
